@@ -1808,20 +1808,33 @@ impl<K: Elem, V: Elem> MapDrv<K, V> {
         oplog!(ctx, "leak sub{} after {} steps (len {})", sub, k_steps, len);
         match sub {
             0 => {
-                // Drain forgotten: the map must be a valid, emptied map afterwards
+                // Drain forgotten: the map must be a valid, possibly emptied map afterwards. Whatever it still holds must be
+                // live elements the drain had NOT handed out (those were moved to the caller); the model follows the map.
                 let mut d = self.map.drain();
+                let mut yielded: Vec<u32> = Vec::new();
                 for _ in 0..k_steps {
                     if let Some((k, v)) = d.next() {
                         k.check();
                         v.check();
+                        yielded.push(k.id());
                     }
                 }
-                if d.len() > 0 || true {
-                    ctx.leak_ok = true; // the table's block is not given back
-                }
+                ctx.leak_ok = true; // the table's block and the elements not yet yielded may never be released
                 std::mem::forget(d);
-                self.model.e.clear();
-                crate::check!(self.map.is_empty(), "after a leaked Drain the map reports len {}", self.map.len());
+                let mut kept: Vec<u32> = Vec::new();
+                for (k, v) in self.map.iter() {
+                    k.check();
+                    v.check();
+                    kept.push(k.id());
+                }
+                crate::check!(kept.len() == self.map.len(), "after a leaked Drain len() is {} but iter() yields {}", self.map.len(), kept.len());
+                if self.compare {
+                    for id in &kept {
+                        crate::check!(!yielded.contains(id), "after a leaked Drain the map still holds key {}, which the drain had already handed out", id);
+                        crate::check!(self.model.pos(*id).is_some(), "after a leaked Drain the map holds key {}, which it did not hold before", id);
+                    }
+                }
+                self.model.e.retain(|e| kept.contains(&e.id));
             }
             1 => {
                 let salt = rng.next();
